@@ -253,6 +253,14 @@ class SM:
 
     def top(self, cls, name):
         m = self.method(cls, name)
+        # a coroutine may only suspend in its LAST statement (waiting for the result): no await
+        # may sit between the state check and the state change / frame it guards
+        if isinstance(m, ast.AsyncFunctionDef):
+            for s in m.body[:-1]:
+                for n in ast.walk(s):
+                    if isinstance(n, (ast.Await, ast.AsyncFor, ast.AsyncWith)):
+                        self.err(n, f'{cls}.{name}: suspension point before the last statement '
+                                    f'(between the state check and the state change): {u(s)[:60]}')
         return self.block(m.body, m, cls, 0)
 
 
